@@ -50,6 +50,8 @@ def text_ops(rng, t, full=False):
             raw = {8: [0x41, 0x80, 0xC3, 0xFF, 0xD8, 0], 16: [0xD800, 0xDBFE, 0xDBFF, 0xDC00, 0xFFFF, 0x00D8, 0, 0x41], 32: [0xD800, 0x110000, 0xFFFFFFFF, 0, 0x41]}[wo]
             out0 = units(wo, [rng.choice(raw) for _ in range(rng.choice([1, 2, 4]))])
         ops.append(f"utf.transcode {wi} {wo} {pol} {mark} {out0} {units(wi, encs(wi, t))}")
+        if (wi == 32 or wo == 32) and wi != wo:
+            ops.append(f"utf.transcodew {wi} {wo} {pol} {mark} {out0} {units(wi, encs(wi, t))}")     # wchar_t on the 32-bit side
         # typed entry points incl. LE/BE
         if wi != 8 or wo != 8:
             src = rng.choice(ENCS[wi])
